@@ -482,6 +482,92 @@ def run_inflight(R: Recorder, case: dict[str, Any], verbose: bool = False) -> No
                   detail=f"second call arrived {adv} after the first (expiration {exp}, unexpired) while the first invocation was running: {n} invocations, results {out['r1']} / {out['r2']}", case=case)
 
 
+def run_scoped(R: Recorder, case: dict[str, Any], verbose: bool = False) -> None:
+    """async flavours called from inside scopes (the way every real program calls them): the first caller, inside its own scope, misses
+    and its scope is torn down (its task is cancelled / its body fails / it just finishes) while the invocation is running; a bystander
+    with the same key and a later caller must still be answered with the value the function produced for that key"""
+    from haiway import cache, ctx
+
+    flavour, teardown, bystander = case["flavour"], case["teardown"], case["bystander"]
+    inv: list[int] = []
+    gate: dict[str, asyncio.Future[None]] = {}
+    deco = cache(limit=2)
+
+    async def body(who: str | None, x: int) -> Result:
+        inv.append(x)
+        if len(inv) == 1:
+            gate["g"] = asyncio.get_running_loop().create_future()
+            await gate["g"]
+        else:
+            await asyncio.sleep(0)
+        return Result((who, x, len(inv)))
+
+    if flavour == "async":
+        @deco
+        async def fn(x: int) -> Result:
+            return await body(None, x)
+        call = fn
+    else:
+        class H(Receiver):
+            @deco
+            async def fn(self, x: int) -> Result:
+                return await body(self.name, x)
+        call = H("A").fn
+    out: dict[str, Any] = {}
+
+    async def first() -> Any:
+        async with ctx.scope("first"):
+            if teardown == "body-fails":
+                t = asyncio.ensure_future(call(1))
+                await asyncio.sleep(0)
+                await asyncio.sleep(0)
+                del t
+                raise KeyError("first caller's scope body failed")
+            return await call(1)
+
+    async def other(name: str, scoped: bool) -> Any:
+        if scoped:
+            async with ctx.scope(name):
+                return await call(1)
+        return await call(1)
+
+    async def main(loop: Any) -> None:
+        ta = loop.create_task(first())
+        for _ in range(3):
+            await asyncio.sleep(0)
+        tb = loop.create_task(other("bystander", bystander == "scoped"))
+        for _ in range(3):
+            await asyncio.sleep(0)
+        if teardown == "cancelled":
+            ta.cancel()
+        for _ in range(6):
+            await asyncio.sleep(0)
+        if "g" in gate and not gate["g"].done():
+            gate["g"].set_result(None)
+        res = await asyncio.gather(ta, tb, return_exceptions=True)
+        out["first"], out["bystander"] = res
+        n0 = len(inv)
+        out["later"] = (await asyncio.gather(other("later", True), return_exceptions=True))[0]
+        out["invocations_for_later"] = len(inv) - n0
+
+    status, value, loop = run_virtual(main, max_iterations=20000)
+    R.case(case, nontrivial=True)
+    R.count("calls_from_inside_scopes")
+    where = {"flavour": flavour, "exp": "none", "receivers": "identity", "scoped_callers": True, "teardown": teardown}
+    if verbose:
+        print(status, value, out, inv)
+    if status != "ok":
+        R.monitor("right-key", False, where={**where, "kind": f"history-{status}"}, detail=f"scoped history ended {status}: {value!r}", case=case)
+        return
+    b, later = out["bystander"], out["later"]
+    okb = isinstance(b, Result) and b.tag[1] == 1
+    R.monitor("right-key", okb, where={**where, "kind": "not-a-produced-value", "who": "bystander"}, detail=f"first caller {teardown} inside its scope while the invocation was running; the bystander (same key) received {b!r}; invocations {inv}", case=case)
+    okl = isinstance(later, Result) and later.tag[1] == 1
+    R.monitor("right-key", okl, where={**where, "kind": "not-a-produced-value", "who": "later"}, detail=f"a later caller of the same key received {later!r}; bystander got {b!r}; invocations {inv}", case=case)
+    if okb and okl:
+        R.monitor("required-hit", out["invocations_for_later"] == 0 and later is b, where={**where, "kind": "miss-on-required-hit"}, detail=f"later call of the cached key made {out['invocations_for_later']} new invocation(s); same object: {later is b}", case=case)
+
+
 FLAVOURS = ("sync", "async", "sync-method", "async-method")
 KEYS3 = {
     False: [(None, (1, 0)), (None, (1.0, 0)), (None, (True, 0))],
@@ -556,6 +642,8 @@ def run(R: Recorder, tier: str, seed: int, shard: int, nshards: int) -> None:
             for exp_, adv in itertools.product((1.0, 2.5), (0.25, 0.5, 1.0, 1.5, 2.5, 3.0, 8.0)):
                 for order in ("old-first", "new-first"):
                     run_inflight(R, {"inflight": True, "flavour": flavour, "exp": exp_, "advance": adv, "release": order})
+        for flavour, teardown, bystander in itertools.product(("async", "async-method"), ("none", "cancelled", "body-fails"), ("scoped", "plain")):
+            run_scoped(R, {"scoped": True, "flavour": flavour, "teardown": teardown, "bystander": bystander})
         argnames.check(R, "arguments", argname_wrappers())
         stacking.check_cache(R, "required-hit")
     R.flags["exhaustive_core"] = f"all histories up to length {EXH_LEN[tier]} over 3 keys + 2 advances x 4 flavours x limits 1-3 x expirations (none, 1, 2.5)"
@@ -582,6 +670,9 @@ def replay(R: Recorder, case: dict[str, Any]) -> None:
         return
     if case.get("inflight"):
         run_inflight(R, case, verbose=True)
+        return
+    if case.get("scoped"):
+        run_scoped(R, case, verbose=True)
         return
     if "stacking" in case:
         stacking.check_cache(R, "required-hit", only=case["stacking"])
